@@ -69,12 +69,17 @@ def gen_expr(rnd, env, depth):
     op = rnd.choice(apm.INFIX)
     lhs = gen_expr(rnd, env, depth - 1)
     if op in ("<<", ">>", "_"):
-        k = rnd.choice([0, 1, 2, 3, 4, 7, 8, 15, 16, 17, 31, 32, 40]) * (1 if (op == "_" and rnd.random() < 0.5) or rnd.random() < 0.97 else -1)
+        k = rnd.choice([0, 1, 2, 3, 4, 7, 8, 15, 16, 17, 31, 32, 40, 63, 64, 65, 70, 100, 128]) * (1 if (op == "_" and rnd.random() < 0.5) or rnd.random() < 0.97 else -1)
         if op == "_" and rnd.random() < 0.4:
             k = -abs(k)
         rhs = apm.num(k, rnd.choice([None, "d"])) if rnd.random() < 0.8 else ("sym", rnd.choice(env["shifts"]))
         return ("bin", op, lhs, rhs)
     rhs = gen_expr(rnd, env, depth - 1)
+    if rnd.random() < 0.04:
+        # a wide intermediate that is brought back into range: arithmetic is unbounded, only the final value has to fit
+        w = rnd.choice([64, 65, 70, 100])
+        return ("bin", rnd.choice([">>", "/"]), ("grp", ("bin", "<<", ("grp", lhs), apm.num(w, "d"))),
+                apm.num(w - rnd.randrange(0, 4), "d") if rnd.random() < 0.5 else ("grp", ("bin", "<<", apm.num(1), apm.num(w - rnd.randrange(0, 4), "d"))))
     return ("bin", op, lhs, rhs)
 
 
